@@ -18,11 +18,11 @@ BATCH = 8
 RULE = ('one evaluation = one seeded simulated run: 2-4 clients (threads sharing one Cache object / own objects in one '
         'process / separate simulated processes) x 3-8 operations on 1-3 shared keys with unique inline and file-backed '
         'values, interleaved at every SQL statement, file-system call and clock read (plus source lines in a share of '
-        'shared-object runs) by a seeded scheduler (uniform / sticky / PCT); non-trivial = at least one context switch '
+        'shared-object runs) by a seeded scheduler (uniform / sticky / PCT); in a tenth of the runs one client runs evict(tag) / expire() / clear() over 101-150 prefilled rows while the others replace rows it has yet to reach (a bulk removal is a series of atomic per-row steps, each taking a row only while it still matches; rows nobody wrote to must all be gone); non-trivial = at least one context switch '
         'between clients; distinct = distinct SHA-256 of the full seam event log')
 ASSUMPTIONS = ['interleaving granularity is the seam call (and sampled source lines in shared-object runs); SQLite statements are atomic',
                'iteration is checked for per-key weak consistency, not as an atomic snapshot (generator protocol)']
-PROBES = ('lock_wait', 'stmt_blocked', 'tolerated_miss', 'file_backed_read', 'line_yield_runs')
+PROBES = ('lock_wait', 'stmt_blocked', 'tolerated_miss', 'file_backed_read', 'line_yield_runs', 'bulk_removal_races')
 
 KEYS = ['a', 'b', {'t': [1, 'x']}]
 COUNTERS = ['n', 7]
@@ -71,7 +71,36 @@ def gen_case(seed, tier):
         faults = []
         settings['statistics'] = 0
         settings['eviction_policy'] = rng.choice(('least-recently-stored', 'none'))
-    cfg = {'topology': topo, 'settings': settings, 'sched': sched, 'line_p': line_p,
+    prefill = None
+    if rng.random() < 0.10:
+        # a bulk removal (evict / expire / clear: batches of 100 rows, one transaction each) running next to writers that
+        # replace rows it has yet to reach: a row may only go while it still matches - a completed replacement with
+        # another tag and no expiry must survive evict('old') / expire()
+        n = rng.choice((101, 120, 150))
+        bulk = rng.choice(('evict', 'evict', 'expire', 'clear'))
+        prefill = {'n': n, 'bulk': bulk}
+        progs = {'c0': [{'op': bulk, 'retry': True}]}
+        if bulk == 'evict':
+            progs['c0'][0]['tag'] = 'old'
+        for ci in range(1, rng.choice((2, 2, 3))):
+            prog = []
+            for j in range(rng.randint(2, 5)):
+                k = 10000 + rng.choice((rng.randrange(n), rng.randrange(95, n), n + rng.randrange(3)))
+                r = rng.random()
+                if r < 0.6:
+                    op = {'op': 'set', 'k': k, 'v': uniq_value(rng, ci, j, big_n), 'tag': 'new-c%d-%d' % (ci, j), 'retry': True}
+                elif r < 0.75 and bulk == 'evict':
+                    op = {'op': 'set', 'k': k, 'v': uniq_value(rng, ci, j, big_n), 'tag': 'old', 'retry': True}
+                elif r < 0.9 and bulk != 'expire':
+                    op = {'op': 'get', 'k': k, 'tag': True}
+                else:
+                    op = {'op': 'add', 'k': k, 'v': uniq_value(rng, ci, j, big_n), 'tag': 'new-c%d-%d' % (ci, j), 'retry': True}
+                prog.append(op)
+            progs['c%d' % ci] = prog
+        faults = []
+        settings['statistics'] = 0
+        settings['eviction_policy'] = rng.choice(('least-recently-stored', 'none'))
+    cfg = {'topology': topo, 'settings': settings, 'sched': sched, 'line_p': line_p, 'prefill': prefill,
            'dircollide': rng.random() < 0.5, 'post_stmt_yield': rng.random() < 0.5,
            'yield_clock': rng.random() < 0.7, 'clock': {'mode': rng.choice(('tick', 'frozen'))},
            'timeout': rng.choice((60, 60, 0.05))}
@@ -138,18 +167,48 @@ def model_apply(state, op):
     return kvmodel.apply(state, op)
 
 
-def check_history(history, violations, probes):
+def prefill_state(prefill, keys):
+    """Model state of the prefilled rows among `keys` (key 10000+i holds i, tagged 'old')."""
+    items = []
+    if prefill['bulk'] == 'expire':
+        return frozenset()      # the prefilled rows have expired before the clients start: no accessor sees them
+    for k in keys:
+        if isinstance(k, int) and 10000 <= k < 10000 + prefill['n']:
+            items.append((kvmodel.kid(k), fp(k - 10000) + kvmodel.SEP + fp('old')))
+    return frozenset(items)
+
+
+def check_history(history, violations, probes, prefill=None):
     ops = [h for h in history if h['op']['op'] != 'iter']
+    init = frozenset()
+    if prefill:
+        keys = []
+        for h in ops:
+            if 'k' in h['op'] and h['op']['k'] not in keys:
+                keys.append(h['op']['k'])
+        ops = [h for h in ops if h['op']['op'] != 'len']
+        ops = lin.expand_bulk_removals(ops, keys, lambda op: None if op['op'] == 'clear' else 'old')
+        init = prefill_state(prefill, keys)
+        probes['bulk_removal_races'] = 1
     # an operation that raised Timeout must have had no effect: it may be dropped
     timeouts = [h for h in ops if h['res'] and h['res'][0] == 'exc' and h['res'][1] == 'Timeout']
     ops = [h for h in ops if h not in timeouts]
     # read of an inline value fails with a documented KeyError-free error; model 'read' only for bytes in files
-    lin.mark_tolerated_misses(ops, miss=kvmodel.is_miss)
-    for h in ops:
+    bulk_steps = [h for h in ops if h['op']['op'] == 'remove_if_tag']
+    plain = [h for h in ops if h['op']['op'] != 'remove_if_tag']
+    lin.mark_tolerated_misses(plain, miss=kvmodel.is_miss)
+    for h in plain:
         if h['tolerate']:
             probes['tolerated_miss_candidates'] = probes.get('tolerated_miss_candidates', 0) + 1
+        elif prefill and h['op']['op'] in ('get', 'getitem', 'read') and h.get('ret') is not None and kvmodel.is_miss(h):
+            # ... or while the bulk removal overlapped it
+            for b in bulk_steps:
+                if b['inv'] < h['ret'] and h['inv'] < (lin.INF if b.get('ret') is None else b['ret']):
+                    h['tolerate'] = True
+                    break
+    ops = plain + bulk_steps
     try:
-        ok, info = lin.check(ops, frozenset(), model_apply)
+        ok, info = lin.check(ops, init, model_apply)
     except OverflowError as exc:
         probes['lin_overflow'] = probes.get('lin_overflow', 0) + 1
         return
@@ -157,6 +216,21 @@ def check_history(history, violations, probes):
     if not ok:
         violations.append({'rule': 'C05/not-linearizable', 'sig': 'history',
                            'detail': 'no sequential order explains the results; stuck at %s' % (info.get('stuck_ops'),)})
+
+
+def check_bulk_complete(case, out, violations):
+    """A bulk removal that returned normally has removed every row that matched from its start to its end: the prefilled
+    rows no client wrote to."""
+    pre = case['cfg']['prefill']
+    done = [h for h in out['history'] if h['op']['op'] == pre['bulk'] and h.get('ret') is not None and h['res'][0] == 'ok']
+    if not done:
+        return
+    touched = {h['op']['k'] for h in out['history'] if 'k' in h['op'] and h['op']['op'] in ('set', 'add')}
+    left = [k for k in out.get('left_prefilled', []) if k not in touched]
+    if left:
+        violations.append({'rule': 'C05/bulk-removal-incomplete', 'sig': pre['bulk'],
+                           'detail': '%s() returned %s and left %d matching rows nobody wrote to, e.g. key %r' % (
+                               pre['bulk'], done[0]['res'], len(left), left[0])})
 
 
 def check_iterations(history, violations):
@@ -221,10 +295,27 @@ def run_case(case):
         rec['ret'] = sim.stamp()
         hist.append(rec)
         out['check'] = check_messages(obs)
+        pre = case['cfg'].get('prefill')
+        if pre:
+            if pre['bulk'] == 'expire':
+                out['left_prefilled'] = [k for k in obs.iterkeys() if isinstance(k, int) and 10000 <= k < 10000 + pre['n']
+                                         and obs.get(k, expire_time=True)[1] is not None]
+            else:
+                out['left_prefilled'] = [k for k in obs.iterkeys() if isinstance(k, int) and 10000 <= k < 10000 + pre['n']
+                                         and (pre['bulk'] == 'clear' or obs.get(k, tag=True)[1] == 'old')]
         obs.close()
         out['audit'] = audit(main.directory)
 
-    out = conc.run_and_inspect(case, inspect)
+    def prepare(world, main):
+        pre = case['cfg'].get('prefill')
+        if not pre:
+            return
+        for i in range(pre['n']):
+            main.set(10000 + i, i, tag='old', expire=5 if pre['bulk'] == 'expire' else None)
+        if pre['bulk'] == 'expire':
+            world.sim.advance(10)
+
+    out = conc.run_and_inspect(case, inspect, prepare=prepare)
     violations = out['violations']
     if conc.incident_violations(out, PROPERTY, violations):
         return {'violations': violations, 'digest': out.get('digest'), 'steps': out.get('steps', 0),
@@ -242,7 +333,9 @@ def run_case(case):
         if r and r[0] == 'exc' and r[1] == 'TypeError' and h['op']['op'] not in ('incr', 'decr'):
             violations.append({'rule': 'C05/unexpected-exception', 'sig': r[1],
                                'detail': '%s op %s -> %s' % (h['task'], h['op'], r)})
-    check_history(out['history'], violations, probes)
+    check_history(out['history'], violations, probes, case['cfg'].get('prefill'))
+    if case['cfg'].get('prefill') and not violations:
+        check_bulk_complete(case, out, violations)
     check_iterations(out['history'], violations)
     problems, empties, info = out['audit']
     if problems:
